@@ -41,3 +41,7 @@ func init() {
 		props[id] = propCfg{Level: "model_checking", Rule: ruleC}
 	}
 }
+
+func init() {
+	props["C20"] = propCfg{Level: "model_checking", QuickS: 240, Rule: "explicit-state breadth-first search over (remote content version, server mode, cache files incl. timestamp age class, approved checksum of the model); transitions are real CLI invocations against a loopback HTTP server owned by the harness, server events and cache expiry; states are deduplicated on that tuple"}
+}
